@@ -2,7 +2,7 @@
    Reads a K1 case file (harness/K1_FORMAT.md), evaluates the extracted Coq job
    model (coq/Struct/JobSem.v, extracted by coq/Extract/ExtractK1.v into
    k1_model.ml) on every work item and prints one line per item:
-       id=<id> dst=<hex> tag=<hex>[ niv=<hex>]
+       id=<id> dst=<hex> tag=<hex>[ niv=<hex>][ loose=<byte index>:<bit mask>,...]
        id=<id> unmodelled
    Usage: k1_driver <casefile|-> [shard nshards]   (items with index mod nshards = shard) *)
 open K1_model
@@ -90,7 +90,11 @@ let process (line : string) : unit =
       let niv = match job_model_niv w with
         | Some v -> " niv=" ^ hex_of_bytes v
         | None -> "" in
-      Printf.printf "id=%s dst=%s tag=%s%s\n" id (hex_of_bytes dst) (hex_of_bytes tag) niv
+      let loose = match job_model_loose w with
+        | [] -> ""
+        | l -> " loose=" ^ String.concat ","
+                 (List.map (fun (i, m) -> Printf.sprintf "%d:%d" (int_of_n i) (int_of_n m)) l) in
+      Printf.printf "id=%s dst=%s tag=%s%s%s\n" id (hex_of_bytes dst) (hex_of_bytes tag) niv loose
   with
   | Unmodelled -> Printf.printf "id=%s unmodelled\n" id
   | Failure m -> Printf.printf "id=%s unmodelled parse-error:%s\n" id m
